@@ -187,7 +187,7 @@ def run(ctx, rep):
         f, c = ts.still_uncovered[0]
         raise AnalysisError("status setter call not reached by the typestate analysis: %s in %s" % (utext(c), f.qual))
     sites = list(ts.sites.values())
-    rep.floor("R2", "status setter call sites on orders", len(sites), 50)
+    rep.floor("R2", "status setter call sites on orders", len(sites), 30)
     rep.note("handler_entry_states", ts.handler_entry)
     rep.note("interference", {k: sorted("%s->%s" % p for p in v) for k, v in ts.interference.items()})
     rep.note("typestate_contexts", ts.contexts_run)
